@@ -2,7 +2,7 @@
 import json, jsonschema, glob, sys
 jsonschema.validate(json.load(open('/verif/MANIFEST.json')), json.load(open('/root/.vp/MANIFEST.schema.json')))
 es = json.load(open('/root/.vp/EVIDENCE.schema.json'))
-for f in sorted(glob.glob('/verif/evidence/*.json')):
+for f in sorted(x for x in glob.glob('/verif/evidence/*.json') if not x.endswith('.partial.json')):
     jsonschema.validate(json.load(open(f)), es)
     print('ok', f)
 print('manifest valid')
